@@ -24,14 +24,14 @@ theorem C09_defaults_unsigned :
 /-- The algorithms used when nobody names one are themselves on the allow-lists `Entity.sign` tests
     (so a defaulted, demanded Response signature is never refused). -/
 theorem C09_default_algorithms_allowed :
-    Gen.IdpDefaults.sigAllowedCodes.contains Gen.IdpDefaults.sigAlgCode = true ∧
-    Gen.IdpDefaults.digestAllowedCodes.contains Gen.IdpDefaults.digestAlgCode = true := by decide
+    Gen.IdpDefaults.defaults.sigAllowed.contains Gen.IdpDefaults.defaults.sigAlg = true ∧
+    Gen.IdpDefaults.defaults.digestAllowed.contains Gen.IdpDefaults.defaults.digestAlg = true := by decide
 
 /-- The lifetime used when no policy names one is not negative. -/
 theorem C09_default_lifetime_nonneg : 0 ≤ Gen.IdpDefaults.defaults.lifetime.secs := by decide
 
 /-- The two NameID formats `get_nameid` treats specially are different formats. -/
-theorem C09_special_formats_distinct : Gen.IdpDefaults.persistentCode ≠ Gen.IdpDefaults.emailCode := by decide
+theorem C09_special_formats_distinct : Gen.IdpDefaults.defaults.persistent ≠ Gen.IdpDefaults.defaults.email := by decide
 
 /-! ### argument > configuration > default -/
 
@@ -383,36 +383,27 @@ theorem C09_end_to_end {L : Type} (d : Defaults) (cfg : Cfg) (a : Args W) (s : S
         simpa [ht] using hsess }
   have hproc := process_scoped hacc
   rw [← toSp_responseOf hdestne hax hclass] at hproc
-  refine ⟨_, nid, ?_, ⟨assertionOf d cfg a nid, [], rfl, rfl⟩, ?_, ?_, ?_, ?_, ?_⟩
-  · unfold endToEnd
-    rw [htrust, hproc]
-    simp [recovered, responseOf, assertionOf, hround]
-  · rfl
-  · rfl
-  · simpa [scopedOf] using hcf.symm
-  · simp only [scopedOf, expectedExpiry, hlifeEq]
-  · rfl
+  refine ⟨{ nameId := some nid.text, issuer := Sp.pyStrip cfg.entityId, cameFrom := some cf,
+            notOnOrAfter := expectedExpiry d cfg a, sessionIndex := some a.freshSession, cached := true },
+    nid, ?_, ⟨assertionOf d cfg a nid, [], rfl, rfl⟩, rfl, rfl, hcf.symm, rfl, rfl⟩
+  unfold endToEnd
+  rw [htrust, hproc]
+  simp [recovered, responseOf, assertionOf, hround, scopedOf, expectedExpiry, hlifeEq]
+  cases a.sessionNooa <;> rfl
 
-/-- `specE2E (model) = true` for all inputs: the checker the driver evaluates on the real SP's outcome
-    holds of the composed model. -/
+/-- `specE2E (model) = true` for all inputs (when no Response is created the checker is `true` by
+    definition): the checker the driver evaluates on the real SP's outcome holds of the composed model. -/
 theorem C09_e2e_meets_spec {L : Type} [BEq L] [LawfulBEq L] (d : Defaults) (cfg : Cfg) (a : Args W) (s : SpSide)
     (conv : Conv L W) (hd : d.signResponse = false ∧ d.signAssertion = false)
-    (out : Except Refusal (Issued W)) (hout : create d cfg a = out) :
-    specE2E d cfg a s (conv.toLocal a.attrs) out
-      (match out with
-       | .ok r => some (endToEnd conv s.cfg s.env s.trusts r)
-       | .error _ => none) = true := by
-  cases out with
-  | error e => rfl
-  | ok r =>
-    simp only [specE2E]
-    cases hpre : e2ePre d cfg a s with
-    | false => rfl
-    | true =>
-      obtain ⟨o, nid, he, ⟨x, rest, hx, hxn⟩, hname, hiss, hcf, hexp, _⟩ :=
-        C09_end_to_end d cfg a s r conv (conv.toLocal a.attrs) hd hout hpre rfl
-      rw [he]
-      simp [hx, hxn, hname, hiss, hcf, hexp]
+    (r : Issued W) (hcreate : create d cfg a = .ok r) :
+    specE2E d cfg a s (conv.toLocal a.attrs) (.ok r) (some (endToEnd conv s.cfg s.env s.trusts r)) = true := by
+  unfold specE2E
+  by_cases hpre : e2ePre d cfg a s = true
+  · obtain ⟨o, nid, he, ⟨x, rest, hx, hxn⟩, hname, hiss, hcf, hexp, _⟩ :=
+      C09_end_to_end d cfg a s r conv (conv.toLocal a.attrs) hd hcreate hpre rfl
+    simp only [hpre, he, hx, hxn, hname, hiss, hcf, hexp]
+    simp
+  · simp [hpre]
 
 /-! ### non-vacuity -/
 
@@ -434,10 +425,10 @@ private def exSide : SpSide :=
 
 -- a Response is created: signed on both levels with the argument's algorithm, lifetime 300 s from the requester's entry
 example : (match create exD exCfg exArgs with
-           | .ok r => some (r.sig, r.assertions.map (fun x => (x.sig, x.condNooa, x.audiences)))
-           | .error _ => none) =
-    some (some { sigAlg := "rsa-sha256", digestAlg := "sha1" },
-          [(some { sigAlg := "rsa-sha256", digestAlg := "sha1" }, some 1300, [["sp"]])]) := by decide
+           | .ok r => r.sig == some { sigAlg := "rsa-sha256", digestAlg := "sha1" } &&
+                      r.assertions.map (fun x => (x.sig, x.condNooa, x.audiences)) ==
+                        [(some { sigAlg := "rsa-sha256", digestAlg := "sha1" }, some 1300, [["sp"]])]
+           | .error _ => false) = true := by decide
 -- the hypotheses of C09_end_to_end are satisfiable, and its conclusion is what evaluation gives
 example : e2ePre exD exCfg exArgs exSide = true := by decide
 example : (match create exD exCfg exArgs with
